@@ -283,7 +283,6 @@ func StructBuilder(env *Zlisp, name string,
 
 	//Q("good: have struct name '%v'", symN)
 
-	env.datastack.PushExpr(SexpNull)
 	structName := symN.name
 
 	{
@@ -761,8 +760,6 @@ func VarBuilder(env *Zlisp, name string,
 			symN.name, err)
 	}
 	//Q("good: var decl bound symbol '%s' to '%s' of type '%s'", symN.SexpString(nil), valSexp.SexpString(nil), rt.SexpString(nil))
-
-	env.datastack.PushExpr(valSexp)
 
 	return SexpNull, nil
 }
